@@ -1,0 +1,13 @@
+// +build verif
+
+package bmtree
+
+// VerifIdxToPath returns a deep copy of the IndexToPath lookup table, so that
+// a check can compare it before and after concurrent queries.
+func VerifIdxToPath() [][]uint64 {
+	r := make([][]uint64, len(idxToPath))
+	for i, row := range idxToPath {
+		r[i] = append([]uint64(nil), row...)
+	}
+	return r
+}
